@@ -950,9 +950,13 @@ def exec_claim(sess: Session, op: dict, step: int) -> Effect:
                 subset = (subset or []) + [make_donor(sess, op['foreign'])]
             before_map = W.ownership_map(root) if root is not None else None
             if how == 'claim_inter':
-                obj.claim_interleaving_comments(subset)
+                got_c = obj.claim_interleaving_comments(subset)
+                if got_c:
+                    sess.last_unclaimed = got_c[-1]
             elif how == 'unclaim_inter':
-                obj.unclaim_interleaving_comments(subset)
+                got_c = obj.unclaim_interleaving_comments(subset)
+                if got_c:
+                    sess.last_unclaimed = got_c[-1]
             else:
                 un = obj.unclaim_interleaving_comments(subset)
                 if un:
